@@ -386,7 +386,7 @@ def check(prop: str) -> int:
                 seen.add(key)
                 jobs.append(job)
         ctx = multiprocessing.get_context("fork")
-        with ctx.Pool(16) as pool:
+        with ctx.Pool(16, initializer=common.limit_worker) as pool:
             runs = pool.map(run_schedule, jobs, chunksize=32)
             # exhaustive exploration of the real code's own choice points
             ejobs = []
@@ -470,7 +470,7 @@ def fault_exploration(tier: str, workdir: str) -> tuple[list[dict], list[str], i
             jobs.append(job)
     ctx = multiprocessing.get_context("fork")
     runs = []
-    with ctx.Pool(16) as pool:
+    with ctx.Pool(16, initializer=common.limit_worker) as pool:
         runs.extend(pool.map(run_schedule, jobs, chunksize=32))
         for job, part in zip(ejobs, pool.map(explore, ejobs, chunksize=1)):
             runs.extend(part)
